@@ -91,7 +91,14 @@ pub fn exec(line: &str) -> String {
                     // read the publication back through a fresh reader
                     let c = CString::new(path.clone()).unwrap();
                     match ShmReader::new(&c) {
-                        Ok(mut rd) => match rd.snapshot() { Ok(rec) => out.push(record_text(rec)), Err(e) => out.push(shm_err_text(&e)) },
+                        Ok(mut rd) => match rd.snapshot() {
+                            Ok(rec) => {
+                                // the generation word of the file after this publication (bytes 14..16)
+                                let g = std::fs::read(&path).ok().filter(|b| b.len() >= 16).map(|b| u16::from_ne_bytes([b[14], b[15]])).unwrap_or(0);
+                                out.push(format!("{} @{}", record_text(rec), g))
+                            }
+                            Err(e) => out.push(shm_err_text(&e)),
+                        },
                         Err(e) => out.push(shm_err_text(&e)),
                     }
                 }
@@ -146,7 +153,26 @@ pub fn gen_world(rng: &mut Rng) -> String {
     let mut t: i128 = t0 + rng.range(0, 2 * Q as i64) as i128;
     let n_ev = rng.range(3, 40);
     let mut have_pub = false;
+    // one history in five starts cold: nothing but silences / unsynchronised reports and restarts for a while
+    let cold_len = if rng.chance(1, 5) { rng.range(2, 8) } else { 0 };
     for ev_i in 0..n_ev {
+        if ev_i < cold_len {
+            let ta = t; let tq = ta + rng.pick(&[0i64, 1000, 900_000_000]) as i128; let tp = tq + rng.pick(&[0i64, 5000]) as i128;
+            t = tp + rng.range(0, 2 * Q as i64) as i128;
+            match rng.below(5) {
+                0 => parts.push("restart".into()),
+                1 | 2 => parts.push(format!("poll {} {} {} silence {}", ta, tq, tp, rng.below(2))),
+                _ => {
+                    // leap 3, or a synchronised leap status with a reference time 200 s old (stale at 16 s intervals)
+                    let now_real = clk.real_floor(tp);
+                    let (leap, age) = if rng.chance(1, 2) { (3, 0) } else { (rng.range(0, 2), 200 * Q) };
+                    parts.push(format!("poll {} {} {} trk {} {} {} {} {} {} {}", ta, tq, tp, leap, (now_real - age).max(0), cf_word(1e-4), cf_word(1e-4), cf_word(1e-4), (5u32 << 25) | (1 << 23), 0));
+                }
+            }
+            have_pub = true;
+            if rng.chance(1, 3) { let tr = t + rng.pick(&[0i64, 1000, 4_000_000_000]) as i128; parts.push(format!("query {} {}", tr, tr + 500)); }
+            continue;
+        }
         match if ev_i == 0 { 0 } else { rng.below(10) } {
             0..=4 => {
                 // a poll
